@@ -348,6 +348,11 @@ var fragileNames = []string{"r", "v", "t", "m", "ok", "b", "err", "s", "w", "i"}
 var publicNames = []string{"Pub", "Count2", "Visible", "ID"}
 var underscoreNames = []string{"_hidden", "_skip"}
 
+// names that differ only in how a trailing number is written, or in having one at all: whatever order the
+// generator emits per-name declarations in (the Named types of @fp.GenLabelled are emitted once per package,
+// sorted by field name) must separate them
+var numericNames = []string{"a", "a0", "a1", "a01", "a2", "a10", "a02", "n", "n0", "n00", "q9", "q09", "q10", "i1", "i01", "i001"}
+
 func drawStruct(t *rapid.T, idx int, exclFragile map[string]bool, forceJson bool) structSpec {
 	s := structSpec{name: fmt.Sprintf("S%d", idx), value: true}
 	if rapid.IntRange(0, 3).Draw(t, "generic") == 0 {
@@ -408,7 +413,7 @@ func drawStruct(t *rapid.T, idx int, exclFragile map[string]bool, forceJson bool
 	}
 	for i := 0; i < nf; i++ {
 		var f field
-		cls := rapid.SampledFrom([]string{"safe", "safe", "safe", "safe", "fragile", "public", "underscore", "embedded"}).Draw(t, "namecls")
+		cls := rapid.SampledFrom([]string{"safe", "safe", "safe", "safe", "fragile", "public", "underscore", "embedded", "numeric", "numeric"}).Draw(t, "namecls")
 		if s.json && (cls == "embedded" || cls == "underscore") {
 			cls = "safe"
 		}
@@ -420,6 +425,8 @@ func drawStruct(t *rapid.T, idx int, exclFragile map[string]bool, forceJson bool
 			}
 		case "fragile":
 			f.name = pick(fragileNames, "fragile")
+		case "numeric":
+			f.name = pick(numericNames, "numeric")
 		case "public":
 			f.name = pick(publicNames, "pubname")
 		case "underscore":
